@@ -4,22 +4,24 @@ import json,sys
 pid=sys.argv[1]
 p=[json.loads(l) for l in open('/verif/properties.jsonl') if json.loads(l)['id']==pid][0]
 wt=f"/tmp/mut-{pid}"
-print(f"""You are working on the Rust project mech-lang/mech (the Mech programming language: a nom-based parser in src/syntax, a tree-walking interpreter in src/interpreter, core types/bytecode in src/core, stdlib "machines" in machines/*, CLI + file loading in src/). A private git worktree of the repository has been created for you at {wt} (detached HEAD). Work ONLY inside {wt}. Never read, write or run anything in /repo or /verif, and never commit anywhere.
+low=pid.lower()
+print(f"""You are working on the Rust project mech-lang/mech (the Mech programming language: a nom-based parser and a text formatter in src/syntax, a tree-walking interpreter in src/interpreter, core types and the bytecode compiler/loader in src/core, stdlib "machines" in machines/*, CLI + file loading (src/mechfs.rs) in src/). A private git worktree of the repository has been created for you at {wt} (detached HEAD). Work ONLY inside {wt}. Never read, write or run anything in /repo or /verif, and never commit anywhere.
 
 Behavioural property of the system (it is supposed to hold for every input):
 
   {p['title']}
   {p['statement']}
 
-Your task: produce a small, realistic source change (the kind of bug a developer could plausibly introduce: an off-by-one, swapped operands in one macro arm, a wrong index in one kernel, a dropped check, a wrong constant, a missing case, a copy-paste slip for one type or one shape...) that BREAKS this property, while
+Your task: produce a small, realistic source change (the kind of bug a developer could plausibly introduce: an off-by-one, swapped operands in one macro arm, a wrong index in one kernel, a dropped or weakened check, a wrong constant, a missing case, a copy-paste slip for one type or one shape, a reordered pair of statements...) that BREAKS this property, while
   (a) the project still compiles, and
   (b) the existing test suite still passes completely: run `cd {wt} && CARGO_TARGET_DIR={wt}/target cargo test --workspace --no-fail-fast --offline 2>&1 | grep -E "^test result|FAILED|panicked"` (no network is available; expect "7 passed", "83 passed", "562 passed" and no failures; the first build takes several minutes, later ones are incremental), and
-  (c) the break needs something SPECIFIC to manifest (a particular element kind, matrix shape, index form, operand order, operator, value range, multi-step sequence of statements, or two cooperating sites that each look fine alone) - not something that ordinary use would expose at once.
+  (c) the break needs something SPECIFIC to manifest (a particular element kind, shape, form, operand order, operator, value range, multi-step sequence, unusual input, or two cooperating sites that each look fine alone) - not something that ordinary use would expose at once.
+First check on the unchanged tree that the behaviour you are going to break is actually correct there (the tree has some pre-existing defects; do not rely on those).
 
-Also write a demonstration: a Rust integration test file `{wt}/tests/demo_{pid.lower()}.rs` in the style of {wt}/tests/interpreter.rs (parse with `mech_syntax::parser::parse`, evaluate with `mech_interpreter::Interpreter::new(0).interpret(&tree)`, or use whatever public API the property concerns) that FAILS with your change applied and PASSES on the unchanged tree. Verify both directions yourself (e.g. `git stash` the source change, run `cargo test --test demo_{pid.lower()} --offline`, `git stash pop`, run again).
+Also write a demonstration: a Rust integration test file `{wt}/tests/demo_{low}.rs` in the style of {wt}/tests/interpreter.rs and {wt}/tests/bytecode.rs (parse with `mech_syntax::parser::parse`, evaluate with `mech_interpreter::Interpreter::new(0).interpret(&tree)`, `intrp.compile()`, `ParsedProgram::from_bytes`, `mech_syntax::formatter::Formatter`, `mech::read_mech_source_file`, ... whatever public API the property concerns) that FAILS with your change applied and PASSES on the unchanged tree. Verify both directions yourself (`git checkout -- <files>` to get the clean tree; do not use git stash).
 
 Please produce TWO independent mutants if you can (each applied to a clean tree, in different files or mechanisms). Deliver in {wt}/out/:
-  - patch1.diff (and patch2.diff): `git diff` of the SOURCE change only (do not include the demo test or build output), relative to the worktree root, so that `git apply patch1.diff` works on a clean checkout;
+  - patch1.diff (and patch2.diff): `git diff` of the SOURCE change only (do not include the demo test or build output), relative to the worktree root, so that `git apply patch1.diff` works on a clean checkout (many source files use CRLF line endings: test with `git apply --check` on a clean tree);
   - demo1.rs (and demo2.rs): the demonstration test for the corresponding patch;
   - notes.md: for each mutant, what you changed, why it violates the property, what exactly is needed for it to manifest, and the commands you ran with their results (test suite with the patch: counts; demo with / without the patch).
 Leave the worktree's tracked source files UNMODIFIED at the end (git checkout -- . after saving the patches; leave out/ in place). Do not delete the target directory. Report briefly what you produced.""")
